@@ -968,7 +968,7 @@ pub fn run() {
     c.assume("scalars tagged hand-made (arbitrary Z[omega][1/2] elements, float scalars) go beyond 'scalars arising from Clifford+T rewriting'; their violations carry the tag in the signature");
     c.assume("well-formed diagram: every boundary has degree 1 and is an input or an output exactly once; no variables on vertices (the format does not carry them)");
 
-    let (ms, n_arb, n_large, n_simp) = t.pick((9usize, 6000usize, 2000usize, 5000usize), (14usize, 2_500_000usize, 500_000usize, 2_000_000usize));
+    let (ms, n_arb, n_large, n_simp) = t.pick((9usize, 18000usize, 6000usize, 15000usize), (14usize, 2_500_000usize, 500_000usize, 2_000_000usize));
     // the in-scope scalars first, so that a replay file of a scalar signature carries a
     // witness that really arises from Clifford+T rewriting whenever there is one
     par_cases("simplified-clifford-t", n_simp, move |r, i| match gen_simplified(r, ms + 3) {
